@@ -1950,9 +1950,14 @@ impl Model {
 
     pub fn outstanding(&self) -> Vec<Outstanding> {
         let mut undroppable = BTreeSet::new();
+        // streams whose consumer is inside its loop body (waiting on something else) right now
+        let mut busy_streams = BTreeSet::new();
         let mut f = |w: Wait| {
             if w.under_stream && matches!(w.kind, WaitKind::Req) {
                 undroppable.insert(w.key);
+            }
+            if matches!(w.kind, WaitKind::Stream) && !w.polled {
+                busy_streams.insert(w.key);
             }
         };
         for r in &self.roots {
@@ -1971,8 +1976,12 @@ impl Model {
                 op: r.op,
                 resolved: r.resolved,
                 // a dropped request of the old capability API is not noticed by its task (no wake):
-                // the shell of these runs never drops them (S10 is judged by C13 only)
-                droppable: !undroppable.contains(k) && (!r.legacy || (self.g.legacy_drops && r.arity == Arity::Once)),
+                // the shell of these runs never drops one its task is waiting on (S10 is judged by C13
+                // only). A stream of the old API whose consumer is busy elsewhere can be dropped: the
+                // consumer comes back on its own, must still get every item that was accepted before
+                // the drop, and then sees the end of the stream.
+                droppable: !undroppable.contains(k)
+                    && (!r.legacy || (self.g.legacy_drops && r.arity == Arity::Once) || (r.arity == Arity::Many && busy_streams.contains(k))),
                 rx_alive: r.rx_alive,
             })
             .collect()
